@@ -80,7 +80,7 @@ func uniqSorted(v []float64) []float64 {
 }
 
 // igamSmall = 20 and igamLarge = 200 bound the asymptotic regime; a = 1 and a < 1 matter to the callers.
-var gammaAs = set([]float64{0.1, 0.2, 0.3, 0.5, 2, 2.5, 5, 10, 19.9, 20.1, 30, 50, 100, 150, 199, 201, 250, 500, 1000, 1e4}, nb(1), ulps(20, 200))
+var gammaAs = set([]float64{0.055, 0.1, 0.2, 0.83, 0.3, 0.5, 2, 2.5, 5, 10, 19.9, 20.1, 30, 50, 100, 150, 199, 201, 250, 500, 1000, 1e4}, nb(1), ulps(20, 200))
 
 // gammaXs crosses every region switch of cephes igam.go for the given a:
 // x = 1, 1.1, 0.5 (IgamC), x = a, x*1.1 = a, -0.4/log(x) = a, |x-a|/a = 0.3 (20<a<200),
@@ -159,7 +159,7 @@ func genMathext(gen *vlib.G) {
 			}
 		})
 		sfCase(gen, fmt.Sprintf("GammaIncInv a=%g", a), func(r *rep, e *sfErr) {
-			ys := []float64{1e-300, 1e-100, 1e-30, 1e-15, 1e-12, 1e-9, 1e-6, 1e-3, 0.01, 0.1, 0.2, 0.3, 0.5, 0.7, 0.9, 0.99, 1 - 1e-3, 1 - 1e-6, 1 - 1e-9, 1 - 1e-12}
+			ys := []float64{1e-300, 1e-200, 1e-100, 1e-50, 1e-30, 1e-20, 1e-19, 2.5e-18, 1e-18, 1e-15, 1e-12, 1e-9, 1e-6, 1e-3, 0.01, 0.1, 0.2, 0.3, 0.5, 0.7, 0.9, 0.99, 1 - 1e-3, 1 - 1e-6, 1 - 1e-9, 1 - 1e-12}
 			ys = append(ys, straddle(0.25, 0.75, 0.5)...)
 			for i := 1; i < 20; i++ {
 				ys = append(ys, float64(i)/20)
